@@ -90,6 +90,19 @@ def handleGen (op : String) (j : Json) : Except String Json := do
       match apply_overrides hasOptionR hasSectionR sectionKeysR removeOptionR removeSectionR addSectionR setValueR (wrap ini) (ovs.map toOv) (ads.map toOv) with
       | .error e => return Json.mkObj [("err", match e with | .missing => "missing" | .exists => "exists" | .badValue => "badValue" | .malformedOption => "malformedOption")]
       | .ok r => return Json.mkObj [("ini", iniJ r.state)]
+  | "raw_has_option" =>
+    -- _RawConfigParser.has_option / optionxform on a file given as lines: queries [[section, option], ...] -> Booleans, and the transformed option texts
+    let lines ← (← getArr j "lines").mapM parseLine
+    match readIni currentCfg lines with
+    | .error e => return Json.mkObj [("err", errJ' e)]
+    | .ok ini =>
+      let qs ← (← getArr j "queries").mapM fun q => do
+        match (← q.getArr?).toList with
+        | [Json.str a, Json.str b] => pure (a, b)
+        | _ => throw "bad query"
+      let sup := fun (s k : String) => (s == "Variables" || s == "") && ini.vars.any (fun p => p.1 == Atsim.norm k)
+      return Json.mkObj [("has", arrJ (qs.map fun q => Json.bool (raw_has_option Atsim.strip sup ini.sections "Variables" q.1 q.2))),
+                         ("xform", arrJ (qs.map fun q => Json.str (raw_optionxform Atsim.strip q.2)))]
   | "list_items" =>
     -- _query_actions._list_items (with parsed_sections / orphan_sections) on a file given as lines (read by the model's reader): the labels and raw values, in order
     let lines ← (← getArr j "lines").mapM parseLine
